@@ -187,6 +187,11 @@ class PrefixDomain(Domain):
 
     # ----------------------------------------------------------- branch
     def branch(self, test, st):
+        if isinstance(test, ast.NamedExpr):
+            # (p := self.alt_prefix): bind, then test the name
+            st = self.effects(ast.Assign(targets=[test.target],
+                                         value=test.value), st)
+            test = ast.Name(id=test.target.id, ctx=ast.Load())
         pn = _pname(test)
         if pn is not None:
             v = self.value(test, st)
